@@ -1,0 +1,47 @@
+//go:build verif
+
+package trie
+
+// Property-level theorems for /verif/govc, written as client programs of the
+// contracted functions. Never called; verified modularly (each call is
+// replaced by the callee's contract).
+
+//@ theorem C15.addThenHas
+//@   props C15
+//@   requires t != nil && t <= alloc
+//@   requires forall y ref :: y != nil ==> !isnil(y.m)
+//@   requires forall y ref, k int :: has(y.m, k) ==> y.m[k] != nil
+//@   requires closed(heaphas(t.m), heapval(t.m), alloc)
+// On any well-formed trie (children non-nil, live nodes point to live nodes):
+// after Add(b), Has(b) holds, and every sequence x that Has held before is
+// still held - Add inserts b (with its prefixes) and removes nothing.
+func thmAddThenHas(t *Trie, b, x []byte) {
+	h0 := t.Has(x)
+	t.Add(b)
+	h1 := t.Has(b)
+	h2 := t.Has(x)
+	//@ assert h1
+	//@ assert h0 ==> h2
+	_, _, _ = h0, h1, h2
+}
+
+//@ theorem C15.deleteThenHas
+//@   props C15
+//@   requires t != nil && t <= alloc
+//@   requires forall y ref :: y != nil ==> !isnil(y.m)
+//@   requires forall y ref, k int :: has(y.m, k) ==> y.m[k] != nil
+//@   requires closed(heaphas(t.m), heapval(t.m), alloc)
+// On any well-formed trie: Delete(b) returns what Has(b) was; afterwards Has(b)
+// is false for a non-empty b that was present; and no sequence x is held that
+// was not held before - Delete removes and never adds.
+func thmDeleteThenHas(t *Trie, b, x []byte) {
+	hb := t.Has(b)
+	h0 := t.Has(x)
+	r := t.Delete(b)
+	h1 := t.Has(b)
+	h2 := t.Has(x)
+	//@ assert r == hb
+	//@ assert r && len(b) > 0 ==> !h1
+	//@ assert h2 ==> h0
+	_, _, _, _, _ = hb, h0, r, h1, h2
+}
